@@ -104,13 +104,18 @@ type txPlan struct {
 	committee bool // a Policy setter occurs: the committee signs too
 	deploys   bool
 	oog       bool // the system fee is cut below what the script needs: the tx runs out of gas
+	candWitness bool // NEO.unregisterCandidate occurs with the key owner's witness: the owner signs too
+	registers int  // number of NEO.registerCandidate nodes (1000 GAS each)
+	bulk      int  // notifications of the bulk notify nodes (about 0.011 GAS each)
+	nefUpdates int // updates with a new NEF (storage fee for the whole contract state)
 }
 
 func (p txPlan) fee() int64 {
+	f := int64(sysFee)
 	if p.deploys {
-		return sysFeeDeploy
+		f = sysFeeDeploy
 	}
-	return sysFee
+	return f + int64(p.registers)*1001_0000_0000 + int64(p.bulk)*150_0000 + int64(p.nefUpdates)*8_0000_0000
 }
 
 func simpleTx(r *prng.R) txPlan {
@@ -123,10 +128,8 @@ func planText(p txPlan) string { return treeText(p.tree) }
 // sometimes votes, blocked accounts, whitelisted fees and a deployed auxiliary contract.
 func (v *env) setup(r *prng.R, rich bool) {
 	halt := func(txs ...*transaction.Transaction) {
-		if len(txs) == 0 {
-			return
-		}
-		v.e.AddNewBlock(v.tb, txs...)
+		v.e.AddNewBlock(v.tb, txs...) // also when empty: the block heights do not depend on the random choices
+
 		for _, tx := range txs {
 			if aer := v.e.GetTxExecResult(v.tb, tx.Hash()); aer.VMState != vmstate.Halt {
 				panic("setup transaction failed: " + aer.FaultException)
@@ -142,10 +145,22 @@ func (v *env) setup(r *prng.R, rich bool) {
 		return v.e.SignTx(v.tb, tx, fee, signers...)
 	}
 	comm := []neotest.Signer{v.comm}
-	// the committee member registers itself as a candidate (1000 GAS)
-	halt(natTx(v.w.neo, "registerCandidate", 1010_0000_0000, []neotest.Signer{v.sender, v.single}, v.w.candKey))
-
+	// block R: (mostly) the committee member registers itself as a candidate (1000 GAS); GAS for the
+	// contracts that will make a Notary deposit as senders of their own transaction (see below)
 	var txs []*transaction.Transaction
+	if rich || r.Chance(5, 6) {
+		txs = append(txs, natTx(v.w.neo, "registerCandidate", 1010_0000_0000, []neotest.Signer{v.sender, v.single}, v.w.candKey))
+	}
+	var shortDep [numContracts]bool
+	for i := 0; i < numContracts; i++ {
+		if (rich && i >= 2) || (!rich && r.Chance(1, 4)) {
+			shortDep[i] = true
+			txs = append(txs, natTx(v.w.gas, "transfer", sysFee, comm, v.comm.ScriptHash(), v.w.hashes[i], int64(3_0000_0000), nil))
+		}
+	}
+	halt(txs...)
+
+	txs = nil
 	for i := 0; i < numContracts; i++ {
 		var prog []*Node
 		for k := 0; k < 4; k++ {
@@ -153,7 +168,7 @@ func (v *env) setup(r *prng.R, rich bool) {
 				prog = append(prog, &Node{Op: nPut, K: k, V: r.Range(1, 9)})
 			}
 		}
-		if i < 3 && r.Chance(1, 4) { // becomes meaningful once the contract holds NEO (next block)
+		if r.Chance(1, 4) { // becomes meaningful once the contract holds NEO (next block)
 			prog = append(prog, &Node{Op: nNotify, K: 1})
 		}
 		if len(prog) > 0 {
@@ -168,8 +183,19 @@ func (v *env) setup(r *prng.R, rich bool) {
 				txs = append(txs, natTx(v.w.gas, "transfer", sysFee, comm, v.comm.ScriptHash(), v.w.hashes[i], amt, nil))
 			}
 		}
-		if i < 3 && (rich || r.Chance(1, 2)) {
+		if rich || r.Chance(1, 2) {
 			txs = append(txs, natTx(v.w.neo, "transfer", sysFee, comm, v.comm.ScriptHash(), v.w.hashes[i], int64(r.Range(1, 40)), nil))
+		}
+		if shortDep[i] {
+			// a deposit whose owner is the transaction's sender may choose `till`: the minimum, so that
+			// Notary.withdraw succeeds in the test blocks (notary.go onPayment: allowedChangeTill)
+			w := io.NewBufBinWriter()
+			emit.AppCall(w.BinWriter, v.w.gas, "transfer", callflag.All, v.w.hashes[i], v.w.notary,
+				int64(minDeposit+r.Intn(3)), []any{nil, int64(v.bc.BlockHeight() + 2)})
+			tx := transaction.New(w.Bytes(), 0)
+			tx.Nonce = v.nextNonce()
+			tx.ValidUntilBlock = v.bc.BlockHeight() + 1
+			txs = append(txs, v.e.SignTx(v.tb, tx, 1_0000_0000, neotest.NewContractSigner(v.w.hashes[i], func(*transaction.Transaction) []any { return nil })))
 		}
 	}
 	if r.Chance(1, 3) {
@@ -178,7 +204,7 @@ func (v *env) setup(r *prng.R, rich bool) {
 	halt(txs...)
 	// sometimes the chain starts with votes, blocked accounts, whitelisted fees, a deployed auxiliary contract
 	txs = nil
-	for i := 0; i < 3; i++ {
+	for i := 0; i < numContracts; i++ {
 		if r.Chance(1, 3) {
 			txs = append(txs, v.newTx(v.w.compileEntry([]*Node{call(i, 15, &Node{Op: nNative, Fl: 15, Nat: &NatOp{Kind: natVote, Val: 1}})}), sysFee, false))
 		}
@@ -208,7 +234,13 @@ func runCase(o *hx.Out, k int, r *prng.R, corp []txPlan, natives bool) {
 	v := newEnv()
 	defer v.close()
 	v.setup(r, corp != nil)
+	if os.Getenv("VERIF_EXEC_DEBUG") != "" {
+		fmt.Fprintf(os.Stderr, "case %d: first test block %d\n", k, v.bc.BlockHeight()+1)
+	}
 	if corp != nil {
+		if h := int(v.bc.BlockHeight()) + 1; h != corpusHeight {
+			panic(fmt.Sprintf("the corpus assumes that its block has index %d, it is %d", corpusHeight, h))
+		}
 		v.runBlock(o, k, corp)
 		return
 	}
@@ -222,12 +254,12 @@ func runCase(o *hx.Out, k int, r *prng.R, corp []txPlan, natives bool) {
 				plans = append(plans, simpleTx(r))
 				o.Count("tx:simple-neighbour")
 			case ntx > 1 && i == 0 && r.Chance(1, 4):
-				p := genTree(r, o, natives)
+				p := genTree(r, o, natives, int(v.bc.BlockHeight())+1)
 				p.oog = true
 				plans = append(plans, p)
 				o.Count("tx:out-of-gas-predecessor")
 			default:
-				plans = append(plans, genTree(r, o, natives))
+				plans = append(plans, genTree(r, o, natives, int(v.bc.BlockHeight())+1))
 			}
 		}
 		v.runBlock(o, k, plans)
@@ -245,14 +277,14 @@ func (v *env) runBlock(o *hx.Out, k int, plans []txPlan) {
 		fee := p.fee()
 		if p.oog {
 			// what the script needs on the state it will meet (it is the first of the block), cut
-			probe := v.newTx(script, fee, p.committee)
+			probe := v.planTx(*p, script, fee)
 			if vm, _ := v.e.TestInvoke(probe); vm != nil && vm.GasConsumed() > 1 {
 				fee = vm.GasConsumed() * int64(1+k%7) / 8
 			} else {
 				p.oog = false
 			}
 		}
-		tx := v.newTx(script, fee, p.committee)
+		tx := v.planTx(*p, script, fee)
 		txs = append(txs, tx)
 		fees = append(fees, fmt.Sprint(tx.SystemFee+tx.NetworkFee))
 	}
@@ -260,10 +292,32 @@ func (v *env) runBlock(o *hx.Out, k int, plans []txPlan) {
 	o.Count(fmt.Sprintf("block:txs=%d", len(txs)))
 
 	v.e.AddNewBlock(v.tb, txs...)
+	// does the block have the shape of the finding blocked-list-stale-index, fixed by cf4871f (a pre-pass of the
+	// implementation model; its coverage counters are discarded)? From then on a divergence of Policy's blocked-accounts
+	// cache of this chain is reported under that (no longer known) key: a regression of the fix.
+	{
+		saved := cov
+		cov = map[string]int{}
+		st := storeOf(pre)
+		for _, tx := range txs {
+			st = burn(st, int(tx.SystemFee+tx.NetworkFee))
+		}
+		for _, p := range plans {
+			if p.oog {
+				continue
+			}
+			st = implRun(st, p.tree).st
+			if staleFired {
+				v.staleSeen = true
+				o.Count("shape:block-inside-reward-callback-of-a-block")
+			}
+		}
+		cov = saved
+	}
 	after := v.snap(true)
 	post := after.tr
-	for _, t := range pre { // the rewards are inputs of the block: the model keeps them in its store
-		if t.o == rewardTab {
+	for _, t := range pre { // the rewards and the block index are inputs of the block: the model keeps them in its store
+		if t.o == rewardTab || t.o == heightTab {
 			post = append(post, t)
 		}
 	}
@@ -331,6 +385,19 @@ func (v *env) runBlock(o *hx.Out, k int, plans []txPlan) {
 			hs = "HALT"
 		}
 		o.Line("spec", fmt.Sprintf("%s ev %s", hs, eventsText(so.ev)))
+		// the Go port's classification flag against the `dev` flag of the Lean specification spK
+		o.Line("dev", fmt.Sprintf("dev %d", b2i(fired)))
+		if fired {
+			// the known deviation was applied in this transaction: the specification's ledger state may differ from
+			// the implementation model's from here on. Report it (known shape), then let the specification continue
+			// from the implementation model's state, so that the following transactions of the block are judged on
+			// their own (the driver does the same on `dev 1`). Whether the REAL state is the model's is checked at the
+			// end of the block.
+			if a, b := triplesText(triplesOf(specSt)), triplesText(triplesOf(implSt)); a != b {
+				o.Fail("finally-call-rollback", k, "tx %d of block: ledger state after the transaction: implementation model %s, spec %s; tree %s", i, b, a, planText(p))
+			}
+			specSt = implSt
+		}
 
 		if realHalt != so.halt || !sameEvents(effEv, so.ev) {
 			o.Fail(classify(fired, realHalt == mo.halt && sameEvents(ev, mo.raw), "tx"), k,
@@ -364,12 +431,31 @@ func (v *env) runBlock(o *hx.Out, k int, plans []txPlan) {
 			o.Sample(fmt.Sprintf("%s -> %s ev %s", planText(p), st, eventsText(ev)))
 		}
 	}
+	if len(after.stale) > 0 {
+		o.Fail("blocked-list-stale-index", k, "%v; txs %s", after.stale, plansText(plans))
+		post = append(post, triple{997, 0, len(after.stale)})
+	}
 	if len(after.odd) > 0 {
 		o.Fail("cache-storage-divergence", k, "%v; txs %s", after.odd, plansText(plans))
 		post = append(post, triple{999, 0, len(after.odd)})
 	}
 	// the native caches against a node restarted from the same store
-	if div := v.replicaCheck(); len(div) > 0 {
+	div := v.replicaCheck()
+	if v.staleSeen {
+		var rest, stale []string
+		for _, d := range div {
+			if strings.HasPrefix(d, "isBlocked:") {
+				stale = append(stale, d)
+			} else {
+				rest = append(rest, d)
+			}
+		}
+		if len(stale) > 0 {
+			o.Fail("blocked-list-stale-index", k, "node restarted from the same store: %v; txs %s", stale, plansText(plans))
+		}
+		div = rest
+	}
+	if len(div) > 0 {
 		o.Fail("cache-restart-divergence", k, "%v; txs %s", div, plansText(plans))
 		post = append(post, triple{998, 0, len(div)})
 	}
@@ -461,6 +547,11 @@ func main() {
 			if c == nil && k%8 == 7 {
 				o.Count("case:native-cache-layering")
 				runCacheCase(o, k, r)
+				return
+			}
+			if c == nil && k%16 == 3 {
+				o.Count("case:blocked-accounts-cache")
+				runBlockedListCase(o, k, r)
 				return
 			}
 			runCase(o, k, r, c, true)
